@@ -58,8 +58,10 @@ Proof.
 Qed.
 Print Assumptions C11_version_all_int_conversions_defined.
 
-(* canonicalize_version re-parses what it printed (`_TrimmedRelease(str(parsed))`, a second Version() call): that call cannot fail,
-   neither on str(v) nor on the string of the version with its trailing zeros trimmed *)
+(* canonicalize_version re-parses what it printed (`_TrimmedRelease(str(parsed))`, a second Version() call on str(v)): that call cannot
+   fail (first conjunct; Canon.canon itself skips the re-parse, which this lemma justifies).  The second conjunct - the trimmed string
+   parses too - concerns no call the code makes; it says the canonical string is itself a version.
+   The model has no digit limit: beyond int()'s 4300 digits the real Version() rejects (InvalidVersion since fix 71d4b23; finding D10 for C12). *)
 Theorem C11_canonicalize_version_reparse_defined s v : Version s = Some v ->
   Version (vstr v) = Some v /\ Version (vstr (trim v)) = Some (trim v).
 Proof. intros E. pose proof (Version_wf _ _ E) as W. split; apply CanonLaws.Version_vstr; [exact W | now apply wf_trim]. Qed.
@@ -93,7 +95,10 @@ Theorem C11_metadata_from_raw_group_or_success O data ord : MetaFacts.well_typed
 Proof. exact (C17.C17_accept_or_group O data ord). Qed.
 Print Assumptions C11_metadata_from_raw_group_or_success.
 
-(* ---------------- proved with the marker, metadata and ELF models in the improvement round; restated here ---------------- *)
+(* ---------------- proved with the marker and metadata models in the improvement round; restated here.
+   ELFFile: the model's result type has exactly the outcomes None / a path / ELFInvalid (C16_elf_regular_file, third conjunct, is exhaustion
+   of that type, not a proof about the code); that no OTHER exception leaves ELFFile(...).interpreter on BytesIO or on a real file is
+   tested only: streams elf, elf-file, arbitrary-bytes of this check and the model-compared p.elf / p.elff streams of C16. ---------------- *)
 Require MkTotalP C16.
 (* Marker.evaluate: for an accepted marker under a complete, typed environment the result is a bool or UndefinedComparison /
    UndefinedEnvironmentName - none of the four crash points of the evaluator (missing variable, an operator method escaping,
